@@ -699,9 +699,12 @@ theorem succ_stmt_localFn
   simp only [wfS, Bool.and_eq_true, countS, kS, shallowS, Nat.add_eq_zero_iff, Nat.max_le] at gw gc gk gs
   cases sc with
   | true =>
-    rw [visitStmt_localFn_scoped P n st st1 s s1 s2 h1 hcs kind name body h2]
-    simp only [hSc, hA, hIF, countS, Hins]
-    grind
+    cases body with
+    | mk params variadic varTy ret generics attrs blk =>
+      simp only [wfF, countF, kF, shallowF, Bool.and_eq_true, Nat.add_eq_zero_iff, Nat.max_le, Nat.mul_eq_zero] at gw gc gk gs
+      rw [visitStmt_localFn_scoped P n st st1 s s1 s2 h1 hcs kind name params variadic varTy ret generics attrs blk h2]
+      simp only [hSc, hA, hIF, countS, countF, Hins]
+      grind
   | false =>
     rw [visitStmt_localFn_default P n st st1 s s1 s2 h1 hcs kind name body h2]
     simp only [hSc, hA, hIF, countS, Hins]
@@ -853,9 +856,15 @@ theorem succ_stmt_typeFn
     have hIF := h.insertLocalFn_id
     simp only [wfS, wfF, Bool.and_eq_true, countS, countF, kS, kF, shallowS, shallowF, Nat.add_eq_zero_iff, Nat.max_le,
       List.isEmpty_iff, Nat.mul_eq_zero] at gw gc gk gs
-    rw [visitStmt_typeFn P sc n st st1 s s1 s2 h1 hcs ex name params variadic varTy ret generics attrs blk h2]
-    simp only [hSc, hA, hAt, countS, countF]
-    grind
+    cases sc with
+    | true =>
+      rw [visitStmt_typeFn_scoped P n st st1 s s1 s2 h1 hcs ex name params variadic varTy ret generics attrs blk h2]
+      simp only [hSc, hA, hAt, countS, countF, Hins]
+      grind
+    | false =>
+      rw [visitStmt_typeFn_default P n st st1 s s1 s2 h1 hcs ex name params variadic varTy ret generics attrs blk h2]
+      simp only [hSc, hA, hAt, countS, countF]
+      grind
 
 theorem succ_stmt (h : Cover P C C0 W okS) (n : Nat) (L : Level P sc C C0 W okS n) (LL : Lists P sc C C0 W okS n) :
     ∀ st s, wfS st = true → countS C0 st = 0 → okS st = true → kS W st + 1 ≤ n + 1 →
